@@ -26,16 +26,15 @@ package linkedlist
 
 //@ func List.Init
 //@   props C01 C18
-//@   modifies Node.next, Node.prev, l.len, l.$at, l.$pos, l.$in
+//@   modifies l.root.next, l.root.prev, l.len, l.$at, l.$pos, l.$in
 //@   ensures [ri]    result == l && l.len == 0 && @RI_List(l)
-//@   ensures [frame] forall n *Node :: n != $addr(l.root) ==> n.next == old(n.next) && n.prev == old(n.prev)
 //@   ghost at return: l.$at := $store(old(l.$at), 0, $addr(l.root))
 //@   ghost at return: l.$pos := $store(old(l.$pos), $addr(l.root), 0)
 //@   ghost at return: l.$in := $store($emptyset(), $addr(l.root), true)
 
 //@ func New
 //@   props C01 C18
-//@   modifies $alloc, Node.next, Node.prev, List.len, List.$at, List.$pos, List.$in
+//@   modifies $alloc, result.root.next, result.root.prev, result.len, result.$at, result.$pos, result.$in
 //@   ensures [fresh] $fresh(result) && result.len == 0 && @RI_List(result)
 
 //@ func List.Len
